@@ -102,26 +102,39 @@ def nj(name, args, twin_args=None):
     return tuple(np.asarray(g) for g in got), tuple(np.asarray(t) for t in tw)
 
 
+def _nd(case):
+    """The nodata value handed to a smoother gufunc (a float64 argument): usually -1; sometimes a number the int16 data cannot hold
+    whose truncation (x.5) or wrap-around (x + 65536) IS a valid cell's value - by the source every such cell stays valid."""
+    kind = case.get("ndk", "plain")
+    vi = [i for i, ok in enumerate(case["valid"]) if ok]
+    if kind == "plain" or not vi:
+        return -1.0, -1.0
+    base = float(case["y"][vi[int(case.get("ndi", 0)) % len(vi)]])
+    return (base + 0.5, base) if kind == "frac" else (base + 65536.0, base)
+
+
 def r_smoother(name):
     def run(case):
-        y = _series(case)
+        gufunc = name.split(".")[1] in ("ws2dgu", "ws2dpgu", "ws2doptv", "ws2doptvp", "ws2doptvplc", "ws2dwcv", "ws2dwcvp")
+        nd, ndi = _nd(case) if gufunc else (-1.0, -1.0)
+        y = _series(case, nodata=nd)
         n = y.size
         p, lam = case["p"], 10.0 ** case["loglam"]
         if name == "ws2dgu.ws2dgu":
-            return gu(name, (y, lam, -1.0), [(n, "int16")])
+            return gu(name, (y, lam, nd), [(n, "int16")])
         if name == "ws2dpgu.ws2dpgu":
-            return gu(name, (y, lam, -1.0, p), [(n, "int16")])
+            return gu(name, (y, lam, nd, p), [(n, "int16")])
         if name == "ws2doptv.ws2doptv":
-            return gu(name, (y, -1.0, SR), [(n, "int16"), (1, "f8")])
+            return gu(name, (y, nd, SR), [(n, "int16"), (1, "f8")])
         if name == "ws2doptvp.ws2doptvp":
-            return gu(name, (y, -1.0, p, SR), [(n, "int16"), (1, "f8")])
+            return gu(name, (y, nd, p, SR), [(n, "int16"), (1, "f8")])
         if name == "ws2doptvplc.ws2doptvplc":
-            yi = y.astype("int16")
-            return gu(name, (yi, -1.0, p, case["lc"]), [(n, "int16"), (1, "f8")], twin_ins=(_widen(yi), -1.0, p, case["lc"]))
+            yi = _series(case, nodata=ndi).astype("int16")  # int16 cells: the missing ones hold what nd truncates / wraps to
+            return gu(name, (yi, nd, p, case["lc"]), [(n, "int16"), (1, "f8")], twin_ins=(_widen(yi), nd, p, case["lc"]))
         if name == "ws2dwcv.ws2dwcv":
-            return gu(name, (y, -1.0, SR, case["robust"]), [(n, "int16"), (1, "f8")])
+            return gu(name, (y, nd, SR, case["robust"]), [(n, "int16"), (1, "f8")])
         if name == "ws2dwcvp.ws2dwcvp":
-            return gu(name, (y, -1.0, p, SR, case["robust"]), [(n, "int16"), (1, "f8")])
+            return gu(name, (y, nd, p, SR, case["robust"]), [(n, "int16"), (1, "f8")])
         w = np.array(case["valid"], dtype="float64")
         yz = np.where(w > 0, y, 0.0)
         if name == "ws2d.ws2d":
@@ -495,6 +508,8 @@ def pcase(draw, name):
         case["layout"] = "strided"
     if draw(st.integers(0, 2)) == 0:
         case["mk_nan"] = True
+    if draw(st.integers(0, 2)) == 0:
+        case["ndk"], case["ndi"] = draw(st.sampled_from(["frac", "wrap"])), draw(st.integers(0, 47))
     return case
 
 
@@ -513,7 +528,7 @@ def run(ctx):
                 rec.discard("program", why)
             else:
                 checked["n"] += 1
-            rec.case("program", case, nontrivial=why is None, cls=["prog:" + name, "dtype:" + case["dtype"], "layout:" + case.get("layout", "contig")])
+            rec.case("program", case, nontrivial=why is None, cls=["prog:" + name, "dtype:" + case["dtype"], "layout:" + case.get("layout", "contig")] + (["offdomain_nodata"] if case.get("ndk") and name.split(".")[1] in ("ws2dgu", "ws2dpgu", "ws2doptv", "ws2doptvp", "ws2doptvplc", "ws2dwcv", "ws2dwcvp") else []))
         ctx.given("program", pcase(name), per, fn=f, shrink=False)
     req_n = len(names)
     if req_n != 35:
